@@ -173,6 +173,7 @@ harnesses! {
         (ops_data::d_broadcast, 7),
         (ops_data::d_turn_undead, 7),
         (ops_data::d_turn_undead_never, 7),
+        (ops_data::d_turn_undead_losing, 7),
         (ops_data::d_turn_undead_next, 7),
         (ops_data::d_announce_32, 7),
         (ops_data::d_turn_undead_k2, 7),
